@@ -10,7 +10,10 @@
 (* The operand space is described by DESCRIPTORS [w, kind, neg]: w = word   *)
 (* length of the magnitude, kind = "max" (2^(64w) - 1, all ones), "min"     *)
 (* (2^(64(w-1)), smallest w-word value) or "rnd" (seeded random w-word      *)
-(* value), neg = sign.  TLC enumerates the descriptor space exhaustively    *)
+(* value), neg = sign.  Word lengths are deliberately ASYMMETRIC (1, 2, 3   *)
+(* against 11, 12, 21, 40 words, every sign combination): an estimate that  *)
+(* is keyed to the wrong operand is only wrong when the lengths differ a    *)
+(* lot.  TLC enumerates the descriptor space exhaustively                   *)
 (* (MC_BigMeterEnum), the Go driver materialises the operands, performs the *)
 (* real operations with a recording gauge and logs (metered, words(result)),*)
 (* and TLC judges every event (MC_BigMeterJudge).                           *)
@@ -52,13 +55,51 @@ OpsOf(T) == BinOps \cup ShiftOps \cup (IF T.signed THEN {"neg"} ELSE {})
 \* shift amounts (bits); Full = every amount up to 4096 (the unbounded types) / width + 1
 Amounts(T, full) ==
   LET top == IF T.bits = 0 THEN 4096 ELSE T.bits + 1
-  IN {k \in 0..top : full \/ k <= 130 \/ k % 64 \in {0, 1, 7, 8, 9, 63} \/ k \in {4095, 4096}}
+  IN {k \in 0..top : full \/ k <= 72 \/ k % 64 \in {0, 1, 63} \/ (k % 64 \in {7, 8, 9} /\ k < 1100)
+                          \/ k \in {4095, 4096}}
 
 (* ---------------------------------------------------------------- judgement *)
+(* An event carries, besides the descriptors: for the arithmetic and bitwise operations the
+   operands az, bz and the result rz as integers (Bignum encoding); for the shifts the bit length
+   `abits` of the left operand.  The size of the result is DERIVED HERE:
+     - and, or, xor, +, -, unary minus of the unbounded types: the exact result is recomputed
+       with Bignum and must equal rz; * likewise while the operands are short;
+     - otherwise rz is the implementation's result (its value is the business of C11-C14);
+       words = ceil(bitlen(rz) / 64);
+     - a << n has bitlen(a) + n bits; a >> n has bitlen(a) - n bits for a >= 0, and for a < 0
+       (floor) that or one bit more, at least one bit.
+   The driver's own count (len(result.Bits())) must agree with the derived size. *)
 Eight(wds) == MFromNat(8 * wds)
+WordLen(m) == (MBitLen(m) + 63) \div 64
+CeilWords(bitlen) == IF bitlen <= 0 THEN 0 ELSE (bitlen + 63) \div 64
+
+IsShift(e) == e.op \in ShiftOps
+
+\* the exact result, where this module recomputes it
+Recomputed(e) == /\ MType(e.t).bits = 0
+                 /\ \/ e.op \in {"and", "or", "xor", "add", "sub", "neg"}
+                    \/ e.op = "mul" /\ Len(e.az.m) + Len(e.bz.m) <= 40
+ExactResult(bt, e) ==
+  CASE e.op \in {"and", "or", "xor"} -> ZBitOpT(bt, e.op, TRUE, ZCommonWidth(e.az, e.bz), e.az, e.bz)
+    [] e.op = "add" -> ZAdd(e.az, e.bz)
+    [] e.op = "sub" -> ZSub(e.az, e.bz)
+    [] e.op = "mul" -> ZMul(e.az, e.bz)
+    [] e.op = "neg" -> ZNeg(e.az)
+
+\* size of the result in words, derived by the model (only for e.out = "ok")
+ModelWords(e) ==
+  IF ~IsShift(e) THEN WordLen(e.rz.m)
+  ELSE IF MType(e.t).bits > 0 THEN e.words              \* fixed widths wrap: bounded by the width below
+  ELSE IF e.abits = 0 THEN 0
+  ELSE IF e.op = "shl" THEN CeilWords(e.abits + e.n)
+  ELSE IF ~e.a.neg THEN CeilWords(e.abits - e.n)
+  ELSE \* floor of a negative value: |result| = ceil(|a| / 2^n) has abits - n or abits - n + 1 bits, >= 1
+       LET lo == CeilWords(Max2(e.abits - e.n, 1))
+           hi == CeilWords(Max2(e.abits - e.n + 1, 1))
+       IN IF e.words \in {lo, hi} THEN e.words ELSE -1
 
 \* the property
-Valid(e) == e.out = "ok" => MCmp(e.metered.m, Eight(e.words)) >= 0
+Valid(e) == e.out = "ok" => MCmp(e.metered.m, Eight(ModelWords(e))) >= 0
 
 \* mathematical upper bound of words(result) of the exact operation
 MaxWords(e) ==
@@ -72,9 +113,18 @@ MaxWords(e) ==
        [] e.op = "shl" -> IF wa = 0 THEN 0 ELSE wa + e.n \div 64 + 1
        [] e.op = "shr" -> wa
 
-Fields == {"k", "t", "op", "a", "b", "n", "wa", "wb", "out", "metered", "words", "cmp"}
+Fields == {"k", "t", "op", "a", "b", "n", "wa", "wb", "out", "metered", "words", "cmp", "az", "bz", "rz", "abits"}
 
-Consistent(e) ==
+\* the logged operand is the value its descriptor describes (as far as the pattern is fixed)
+MatchesDesc(d, z) ==
+  /\ z.n = (d.neg /\ d.w > 0)
+  /\ WordLen(z.m) = d.w
+  /\ CASE d.w = 0 -> TRUE
+       [] d.kind = "max" -> MBitLen(z.m) = 64 * d.w
+       [] d.kind = "min" -> MBitLen(z.m) = 64 * (d.w - 1) + 1
+       [] OTHER -> MBitLen(z.m) < 64 * d.w
+
+Consistent(bt, e) ==
   /\ Fields \subseteq DOMAIN e
   /\ e.t \in MeterTypeNames
   /\ LET T == MType(e.t)
@@ -82,10 +132,16 @@ Consistent(e) ==
         /\ IsZ(e.metered) /\ ~e.metered.n
         /\ e.wa = e.a.w                                     \* the operand has the described word length
         /\ (e.op \in BinOps => e.wb = e.b.w)
-        /\ (e.op \in ShiftOps => e.n >= 0)
+        /\ (IsShift(e) => e.n >= 0 /\ e.abits >= 0 /\ CeilWords(e.abits) = e.wa)
+        /\ (~IsShift(e) => /\ IsZ(e.az) /\ IsZ(e.bz) /\ IsZ(e.rz)
+                           /\ MatchesDesc(e.a, e.az)
+                           /\ (e.op \in BinOps => MatchesDesc(e.b, e.bz)))
         /\ e.words >= 0
-        \* size bounds: exact arithmetic for the unbounded types, the width for the others (which wrap or fail)
-        /\ (e.out = "ok" => e.words <= (IF T.bits = 0 THEN MaxWords(e) ELSE T.bits \div 64))
+        /\ (e.out = "ok" =>
+              /\ (~IsShift(e) /\ Recomputed(e) => ZEq(e.rz, ExactResult(bt, e)))
+              /\ e.words = ModelWords(e)                    \* the driver's count agrees with the derived size
+              \* size bounds: exact arithmetic for the unbounded types, the width for the others (which wrap or fail)
+              /\ e.words <= (IF T.bits = 0 THEN MaxWords(e) ELSE T.bits \div 64))
 
 (* ---------------------------------------------------------------- deviations *)
 Two64 == MPow2(64)
